@@ -193,7 +193,17 @@ func kidFor(tag string, r *rand.Rand) (string, bool) {
 		return strings.Replace(s, `"ver":1`, `"ver":1,"issuedBy":"ca-7","x":{"y":[1,2]}`, 1), true
 	case "usage-other": // the optional "usage" member with a value a newer CA may introduce: still a valid KeyID
 		s := gen.YSSHCAKeyID(gen.KeyIDSpec{HW: true, Touch: 1, TransID: tid, Prins: []string{"u"}})
-		return strings.Replace(s, `"ver":1`, `"usage":`+[]string{"1", "2", "7", "-1", "255"}[r.Intn(5)]+`,"ver":1`, 1), true
+		return strings.Replace(s, `"usage":0`, `"usage":`+[]string{"1", "2", "7", "-1", "255"}[r.Intn(5)], 1), true
+	case "touch-extreme": // a touch policy of unusual magnitude: nothing in the KeyID rules bounds it for a hardware key
+		s := gen.YSSHCAKeyID(gen.KeyIDSpec{HW: true, Touch: 3, TransID: tid, Prins: []string{"u"}})
+		return strings.Replace(s, `"touchPolicy":3`, `"touchPolicy":`+[]string{"258", "-1", "256", "2147483648", "255"}[r.Intn(5)], 1), true
+	case "near-missing-field-named-elsewhere": // a required member is absent; its name occurs as a value or inside another member
+		s := gen.YSSHCAKeyID(gen.KeyIDSpec{HW: true, Touch: 1, TransID: tid, Prins: []string{"isNonce"}})
+		s = strings.Replace(s, `"isNonce":false,`, ``, 1)
+		if r.Intn(2) == 0 {
+			s = strings.Replace(s, `"ver":1`, `"ver":1,"ext":{"isNonce":false}`, 1)
+		}
+		return s, false
 	case "near-ver257": // 257 = 1 mod 256; 65281 = 1 mod 256 too
 		s := gen.YSSHCAKeyID(gen.KeyIDSpec{HW: true, Touch: 1, TransID: tid, Prins: []string{"u"}})
 		return strings.Replace(s, `"ver":1`, `"ver":`+[]string{"257", "513", "65281"}[r.Intn(3)], 1), false
@@ -235,7 +245,7 @@ func kidFor(tag string, r *rand.Rand) (string, bool) {
 }
 
 // AllKIDs is the full list of KeyID tags.
-var AllKIDs = []string{"touch", "touchless", "firefighter", "inagent", "nonce", "headless", "unknown-type", "regular", "null-prins", "empty-prins", "many-prins", "extra-member", "usage-other", "near-ver257", "near-missing-field", "near-ver2", "near-ver0", "near-conflict", "near-conflict-nonce", "near-conflict-headless-nonce", "near-conflict-headless-ff", "near-conflict-headless-touch", "near-conflict-nonce-touch", "near-trailing-text", "near-two-objects", "near-leading-text", "near-case", "empty", "text"}
+var AllKIDs = []string{"touch", "touchless", "firefighter", "inagent", "nonce", "headless", "unknown-type", "regular", "null-prins", "empty-prins", "many-prins", "extra-member", "usage-other", "touch-extreme", "near-missing-field-named-elsewhere", "near-ver257", "near-missing-field", "near-ver2", "near-ver0", "near-conflict", "near-conflict-nonce", "near-conflict-headless-nonce", "near-conflict-headless-ff", "near-conflict-headless-touch", "near-conflict-nonce-touch", "near-trailing-text", "near-two-objects", "near-leading-text", "near-case", "empty", "text"}
 
 // NewMaterial draws keys and certificates.
 func NewMaterial(r *rand.Rand, cfg Config) *Material {
